@@ -26,6 +26,7 @@ def _world():
 
 
 def handle(kind, payload):
+    proc.OPTIMIZE = int(payload.get("_optimize") or 0)
     w = _world()
     try:
         return HANDLERS[kind](w, payload)
